@@ -98,6 +98,15 @@ impl Handle {
             _ => unreachable!("static types were checked while parsing"),
         }
     }
+    /// A borrow that the caller keeps alive (`hr` / `hm` … `hx`).
+    fn hold(&self, mutable: bool) -> Guard<'_> {
+        match (self, mutable) {
+            (Handle::C(r), false) => Guard::C(r.borrow()),
+            (Handle::D(r), false) => Guard::D(r.borrow()),
+            (Handle::C(r), true) => Guard::Cm(r.borrow_mut()),
+            (Handle::D(r), true) => Guard::Dm(r.borrow_mut()),
+        }
+    }
     fn read(&self) -> i64 {
         match self {
             Handle::C(r) => r.borrow().get(),
@@ -124,6 +133,14 @@ impl Handle {
             }
         }
     }
+}
+
+#[allow(dead_code)]
+enum Guard<'a> {
+    C(rrtk::reference::Borrow<'a, Cell>),
+    D(rrtk::reference::Borrow<'a, dyn Bump>),
+    Cm(rrtk::reference::BorrowMut<'a, Cell>),
+    Dm(rrtk::reference::BorrowMut<'a, dyn Bump>),
 }
 
 /// See [`Handle::raw_alias`]. The temporary clone that is taken apart here is dropped again before returning.
@@ -195,12 +212,16 @@ enum Ev {
     Al(usize),
     /// `cf:<i>:<j>`: `handle_i.clone_from(&handle_j)`
     Cf(usize, usize),
+    /// `hr:<h>` / `hm:<h>`: take an immutable / a mutable borrow through (a clone of) handle h and KEEP it until the matching `hx`
+    /// (`rc` only: a `RefCell` answers a conflicting borrow with a panic; a lock would block, a raw pointer checks nothing)
+    Hold(usize, bool),
+    Hx,
 }
 /// Parse the events, simulating which handles exist (`None` once dropped or moved out of), whether each one OWNS a share of
 /// the target (the counted variants' own handles do, raw aliases do not) and whether it is a `dyn` handle. A line that would
 /// touch the target after its last owner is gone — possible only through a raw alias — or that names a dead handle, or that
 /// asks for `clone_from` between a `dyn` and a concrete handle (or a handle and itself), is `BADLINE`: nothing of it runs.
-fn p_events(toks: &[&str], counted: bool) -> R<Vec<Ev>> {
+fn p_events(toks: &[&str], counted: bool, is_rc: bool) -> R<Vec<Ev>> {
     #[derive(Clone, Copy)]
     struct H {
         owning: bool,
@@ -211,6 +232,8 @@ fn p_events(toks: &[&str], counted: bool) -> R<Vec<Ev>> {
         dynamic: false,
     })];
     let mut freed = false;
+    // handles with a borrow held through them (innermost last); while any is held, raw aliases may not be used for access
+    let mut held: Vec<usize> = Vec::new();
     let mut events = Vec::with_capacity(toks.len());
     fn handle(t: &str, hs: &Vec<Option<H>>) -> R<(usize, H)> {
         let h = p_usize(t)?;
@@ -233,8 +256,26 @@ fn p_events(toks: &[&str], counted: bool) -> R<Vec<Ev>> {
             let (h, x) = handle(r, &hs)?;
             hs.push(Some(H { dynamic: true, ..x }));
             Ev::Dy(h)
+        } else if let Some(r) = t.strip_prefix("hr:").or_else(|| t.strip_prefix("hm:")) {
+            if !is_rc {
+                return Err(NoImpl);
+            }
+            let (h, x) = handle(r, &hs)?;
+            if !x.owning || freed {
+                return Err(Bad);
+            }
+            held.push(h);
+            Ev::Hold(h, t.starts_with("hm:"))
+        } else if *t == "hx" {
+            if held.pop().is_none() {
+                return Err(Bad);
+            }
+            Ev::Hx
         } else if let Some(r) = t.strip_prefix("dm:") {
             let (h, x) = handle(r, &hs)?;
+            if held.contains(&h) {
+                return Err(Bad);
+            }
             hs[h] = None;
             hs.push(Some(H { dynamic: true, ..x }));
             Ev::Dm(h)
@@ -249,30 +290,33 @@ fn p_events(toks: &[&str], counted: bool) -> R<Vec<Ev>> {
             let (i, j) = r.split_once(':').ok_or(Bad)?;
             let (i, old) = handle(i, &hs)?;
             let (j, src) = handle(j, &hs)?;
-            if i == j || old.dynamic != src.dynamic {
+            if i == j || old.dynamic != src.dynamic || held.contains(&i) {
                 return Err(Bad);
             }
             hs[i] = Some(src);
             drop_one(old, &hs, counted, &mut freed);
             Ev::Cf(i, j)
         } else if let Some(r) = t.strip_prefix("rd:") {
-            if freed {
+            if freed || (!held.is_empty() && !handle(r, &hs)?.1.owning) {
                 return Err(Bad);
             }
             Ev::Rd(handle(r, &hs)?.0)
         } else if let Some(r) = t.strip_prefix("wr:") {
             let (h, v) = r.split_once(':').ok_or(Bad)?;
-            if freed {
+            if freed || (!held.is_empty() && !handle(h, &hs)?.1.owning) {
                 return Err(Bad);
             }
             Ev::Wr(handle(h, &hs)?.0, p_i64(v)?)
         } else if let Some(r) = t.strip_prefix("inc:") {
-            if freed {
+            if freed || (!held.is_empty() && !handle(r, &hs)?.1.owning) {
                 return Err(Bad);
             }
             Ev::Inc(handle(r, &hs)?.0)
         } else if let Some(r) = t.strip_prefix("dr:") {
             let (h, x) = handle(r, &hs)?;
+            if held.contains(&h) {
+                return Err(Bad);
+            }
             hs[h] = None;
             drop_one(x, &hs, counted, &mut freed);
             Ev::Dr(h)
@@ -286,57 +330,69 @@ fn p_events(toks: &[&str], counted: bool) -> R<Vec<Ev>> {
     Ok(events)
 }
 
-fn events(toks: &[&str], out: &mut Vec<String>) -> R<()> {
-    let variant = toks[1];
-    if !available(variant) {
-        return Err(NoImpl);
-    }
-    let evs = p_events(&toks[2..], matches!(variant, "rc" | "arw" | "amx"))?;
-    let (first, flag) = make(variant)?;
-    let mut handles: Vec<Option<Handle>> = vec![Some(Handle::C(first))];
-    // Handle numbers were checked while parsing.
-    fn at(handles: &[Option<Handle>], h: usize) -> &Handle {
-        handles[h].as_ref().expect("handle numbers were checked while parsing")
-    }
-    for ev in evs {
+/// Handle numbers were checked while parsing.
+fn at(handles: &[Option<Handle>], h: usize) -> &Handle {
+    handles[h].as_ref().expect("handle numbers were checked while parsing")
+}
+/// Run events from `*pos` on; a `Hold` keeps its guard alive in this frame and runs what follows in a nested frame, which the
+/// matching `Hx` (or the end of the line) ends.
+fn run_events(evs: &[Ev], pos: &mut usize, handles: &mut Vec<Option<Handle>>, flag: &Arc<AtomicBool>, out: &mut Vec<String>, depth: usize) {
+    while *pos < evs.len() {
+        let ev = &evs[*pos];
+        *pos += 1;
         let tok = match ev {
+            Ev::Hold(h, mutable) => {
+                let through = at(handles, *h).duplicate();
+                let guard = through.hold(*mutable);
+                out.push(dash());
+                run_events(evs, pos, handles, flag, out, depth + 1);
+                drop(guard);
+                continue;
+            }
+            Ev::Hx => {
+                out.push(dash());
+                if depth > 0 {
+                    return;
+                }
+                continue;
+            }
             Ev::Cl(h) => {
-                let n = at(&handles, h).duplicate();
+                let n = at(handles, *h).duplicate();
                 handles.push(Some(n));
                 dash()
             }
             Ev::Dy(h) => {
-                let n = at(&handles, h).to_dyn();
+                let n = at(handles, *h).to_dyn();
                 handles.push(Some(n));
                 dash()
             }
-            Ev::Rd(h) => f_rawi(at(&handles, h).read()),
+            Ev::Rd(h) => f_rawi(at(handles, *h).read()),
             Ev::Wr(h, v) => {
-                at(&handles, h).write(v);
+                at(handles, *h).write(*v);
                 dash()
             }
             Ev::Inc(h) => {
-                at(&handles, h).inc();
+                at(handles, *h).inc();
                 dash()
             }
             Ev::Dr(h) => {
-                handles[h] = None;
+                handles[*h] = None;
                 dash()
             }
             Ev::Live => (!flag.load(Ordering::SeqCst)).enc(),
             Ev::Dm(h) => {
-                let n = Handle::into_dyn(&mut handles[h]);
+                let n = Handle::into_dyn(&mut handles[*h]);
                 handles.push(Some(n));
                 dash()
             }
             Ev::Al(h) => {
-                let n = at(&handles, h).raw_alias();
+                let n = at(handles, *h).raw_alias();
                 handles.push(Some(n));
                 dash()
             }
             Ev::Cf(i, j) => {
-                let source = at(&handles, j).duplicate();
-                let target = handles[i].as_mut().expect("handle numbers were checked while parsing");
+                let source = at(handles, *j).duplicate();
+                let target = handles[*i].as_mut().expect("handle numbers were checked while parsing");
                 target.clone_from_handle(&source);
                 drop(source);
                 dash()
@@ -344,6 +400,18 @@ fn events(toks: &[&str], out: &mut Vec<String>) -> R<()> {
         };
         out.push(tok);
     }
+}
+
+fn events(toks: &[&str], out: &mut Vec<String>) -> R<()> {
+    let variant = toks[1];
+    if !available(variant) {
+        return Err(NoImpl);
+    }
+    let evs = p_events(&toks[2..], matches!(variant, "rc" | "arw" | "amx"), variant == "rc")?;
+    let (first, flag) = make(variant)?;
+    let mut handles: Vec<Option<Handle>> = vec![Some(Handle::C(first))];
+    let mut pos = 0;
+    run_events(&evs, &mut pos, &mut handles, &flag, out, 0);
     Ok(())
 }
 
